@@ -30,6 +30,66 @@ macro_rules! with_world {
                 type $W = crate::iterworld::IterWorld<crate::worlds::slices::SliceFam<crate::worlds::slices::Big>>;
                 $body
             }
+            "ranges_u8" => {
+                type $W = crate::iterworld::IterWorld<crate::worlds::ranges::RangeFam<u8>>;
+                $body
+            }
+            "ranges_i8" => {
+                type $W = crate::iterworld::IterWorld<crate::worlds::ranges::RangeFam<i8>>;
+                $body
+            }
+            "ranges_u16" => {
+                type $W = crate::iterworld::IterWorld<crate::worlds::ranges::RangeFam<u16>>;
+                $body
+            }
+            "ranges_i16" => {
+                type $W = crate::iterworld::IterWorld<crate::worlds::ranges::RangeFam<i16>>;
+                $body
+            }
+            "ranges_u32" => {
+                type $W = crate::iterworld::IterWorld<crate::worlds::ranges::RangeFam<u32>>;
+                $body
+            }
+            "ranges_i32" => {
+                type $W = crate::iterworld::IterWorld<crate::worlds::ranges::RangeFam<i32>>;
+                $body
+            }
+            "ranges_u64" => {
+                type $W = crate::iterworld::IterWorld<crate::worlds::ranges::RangeFam<u64>>;
+                $body
+            }
+            "ranges_i64" => {
+                type $W = crate::iterworld::IterWorld<crate::worlds::ranges::RangeFam<i64>>;
+                $body
+            }
+            "ranges_u128" => {
+                type $W = crate::iterworld::IterWorld<crate::worlds::ranges::RangeFam<u128>>;
+                $body
+            }
+            "ranges_i128" => {
+                type $W = crate::iterworld::IterWorld<crate::worlds::ranges::RangeFam<i128>>;
+                $body
+            }
+            "ranges_usize" => {
+                type $W = crate::iterworld::IterWorld<crate::worlds::ranges::RangeFam<usize>>;
+                $body
+            }
+            "ranges_isize" => {
+                type $W = crate::iterworld::IterWorld<crate::worlds::ranges::RangeFam<isize>>;
+                $body
+            }
+            "ranges_char" => {
+                type $W = crate::iterworld::IterWorld<crate::worlds::ranges::RangeFam<char>>;
+                $body
+            }
+            "chars" => {
+                type $W = crate::iterworld::IterWorld<crate::worlds::chars::CharFam>;
+                $body
+            }
+            "splits" => {
+                type $W = crate::iterworld::IterWorld<crate::worlds::splits::SplitFam>;
+                $body
+            }
             other => panic!("unknown world {other}"),
         }
     };
@@ -46,6 +106,15 @@ pub fn stages_for(prop: &str, tier: Tier) -> Option<Vec<Stage>> {
     Some(match prop {
         "C13" => vec![st("parser", 1_000_000, 20_000_000)],
         "C14" => vec![st("parser", 1_000_000, 20_000_000)],
+        "C07" => vec![st("chars", 2_000_000, 40_000_000)],
+        "C06" => vec![st("splits", 2_000_000, 40_000_000)],
+        "C09" => vec![
+            st("ranges_u8", 400_000, 8_000_000), st("ranges_i8", 400_000, 8_000_000), st("ranges_char", 300_000, 6_000_000),
+            st("ranges_u16", 100_000, 2_000_000), st("ranges_i16", 100_000, 2_000_000), st("ranges_u32", 100_000, 2_000_000),
+            st("ranges_i32", 100_000, 2_000_000), st("ranges_u64", 100_000, 2_000_000), st("ranges_i64", 100_000, 2_000_000),
+            st("ranges_u128", 100_000, 2_000_000), st("ranges_i128", 100_000, 2_000_000), st("ranges_usize", 100_000, 2_000_000),
+            st("ranges_isize", 100_000, 2_000_000),
+        ],
         "C08" => vec![st("slices_u8", 1_200_000, 24_000_000), st("slices_zst", 400_000, 8_000_000), st("slices_big", 400_000, 8_000_000)],
         _ => return None,
     })
@@ -84,6 +153,61 @@ pub fn prop_info(prop: &str) -> PropInfo {
                 "the per-step oracle compares with konst's own free string functions (as the property states), so a defect inside a string function that the Parser faithfully delegates to is only seen by the split protocols (compared with std)",
                 "the empty delimiter is excluded from the protocol loops (it legitimately yields \"\" forever) and kept in the per-step oracle",
                 "seeded sampling of operation histories: a clean batch is evidence, not proof",
+            ],
+        },
+        "C08" => PropInfo {
+            level: "exploration",
+            rule: RULE_COMMON,
+            real_vs_stub: json!({
+                "real_code": ["konst::slice::{iter, iter_copied, windows, chunks, rchunks, chunks_exact, rchunks_exact, array_chunks::<1..=4>} and every *Rev type", "konst::iter::into_iter!(slice) / into_iter!(&slice)", "copy(), rev(), next(), next_back(), as_slice(), remainder()"],
+                "reference_models": ["core::slice::{Iter, Windows, Chunks, RChunks, ChunksExact, RChunksExact} (+ a reversed flag for Rev<_>, Copied by value)"],
+                "stubs": [],
+            }),
+            assumptions: vec![
+                "items are compared by address and length (fat pointer) for non-empty sub-slices, by length for empty ones and for zero-sized elements",
+                "window/chunk sizes >= 1 (size 0 is a documented panic in konst and std)",
+                "seeded sampling of operation histories over <= 4 forked handles: a clean batch is evidence, not proof",
+            ],
+        },
+        "C09" => PropInfo {
+            level: "exploration",
+            rule: RULE_COMMON,
+            real_vs_stub: json!({
+                "real_code": ["konst::iter::into_iter!(a..b | a..=b | a.. | &(a..b) | &(a..=b)) for the 12 integer types and char", "RangeIter / RangeInclusiveIter / RangeFromIter and *Rev: next, next_back, copy, rev", "konst::iter::for_each! on range values and on forked mid-iteration iterators (plain, rev() adapter, inherent .rev())"],
+                "reference_models": ["core::ops::{Range, RangeInclusive, RangeFrom} iterators"],
+                "stubs": [],
+            }),
+            assumptions: vec![
+                "a.. (RangeFrom) is never stepped to the point where the successor of MAX would be computed (std leaves it unspecified, konst debug_asserts)",
+                "for_each! drains are cut off (as a violation) after 104 items: bounded progress",
+                "u8/i8 bound pairs are also sampled uniformly; measured_sets.bound_pairs_8bit_seen reports how many of the 2 x 65 536 pairs this run visited (sampling, not an exhaustive sweep)",
+            ],
+        },
+        "C07" => PropInfo {
+            level: "exploration",
+            rule: RULE_COMMON,
+            real_vs_stub: json!({
+                "real_code": ["konst::string::{chars, char_indices}, Chars/RChars/CharIndices/RCharIndices: next, next_back, copy, rev, as_str", "konst::chr::{encode_utf8, from_u32} on every scalar placed in a generated string"],
+                "reference_models": ["core::str::{Chars, CharIndices} (+ reversed flag)", "char::encode_utf8"],
+                "stubs": [],
+            }),
+            assumptions: vec![
+                "DECIDES ONLY the iteration clause of C07 (every interleaving of front/back steps, as_str). The clause 'for every char ... for every u32' (complete enumeration of 0..=0x10FFFF / u32) is a pure-input statement and is NOT decided here; chr::encode_utf8/from_u32 merely run on the scalars the generator places (boundary scalars of each UTF-8 length + random ones)",
+                "seeded sampling: a clean batch is evidence, not proof",
+            ],
+        },
+        "C06" => PropInfo {
+            level: "exploration",
+            rule: RULE_COMMON,
+            real_vs_stub: json!({
+                "real_code": ["konst::string::{split, rsplit, split_terminator, rsplit_terminator} with &str and char delimiters incl. \"\": next, copy, remainder(), rev() of fresh split/rsplit"],
+                "reference_models": ["str::split / rsplit / split_terminator piece sequences (byte ranges); rsplit_terminator = rsplit's sequence minus its last piece iff empty (documented mirrored rule); remainder computed from piece offsets"],
+                "stubs": [],
+            }),
+            assumptions: vec![
+                "rev() is compared on fresh iterators only (split(t,d).rev() == rsplit(t,d) and vice versa); mixed next/next_back on one Split has no std counterpart for str delimiters and is only executed for C01's invariants",
+                "empty pieces/remainders are compared by emptiness only (konst returns a static \"\" once finished)",
+                "seeded sampling: a clean batch is evidence, not proof",
             ],
         },
         _ => PropInfo { level: "exploration", rule: RULE_COMMON, real_vs_stub: json!({}), assumptions: vec![] },
